@@ -1,8 +1,8 @@
 CONSTANTS
   Validators = {1,2,3,4}
   Weight <- W3111
-  Correct = {1,3,4}
-  Faulty = {2}
+  Correct = {1,2,3}
+  Faulty = {4}
   Payloads = {"p","q"}
   BadPayloads = {}
   Weaken = "high_vote_tally_by_view"
